@@ -1615,7 +1615,13 @@ def separator_inverse(model: Model, R: RuleResult) -> int:
     (Subscripting a concatenation by the recorded indices - a gather - applies the permutation a second time instead.)"""
     cls = model.cls("xitorch/_utils/misc.py", "TensorNonTensorSeparator")
     init, rec = cls.find_method("__init__"), cls.find_method("reconstruct_params")
-    from ..domains.dictsem import DictInterp, Tok, Unsupported, Raised
+    from ..domains.dictsem import Tok, Unsupported, Raised
+    from ..domains.kinds import KindInterp
+    import itertools as _it
+
+    class DictInterp(KindInterp):          # closures, host functions (itertools), heap values on top of the dictionary interpreter
+        host = {"itertools.chain": lambda *xs: [y for x in xs for y in x], "chain": lambda *xs: [y for x in xs for y in x],
+                "itertools.accumulate": lambda xs, *a, **k: list(_it.accumulate(xs, *a, **k))}
     # abstract round trip: split a symbolic argument list, then put fresh tensors back - for every spelling of the two methods
     T = lambda nm, rg=True: Tok(nm, True, rg)
     N = lambda nm: Tok(nm, False, False)
@@ -1657,7 +1663,7 @@ def separator_inverse(model: Model, R: RuleResult) -> int:
                       "(every Function that separates its arguments then pairs gradients with the wrong arguments)" % (label, fresh, res, want))
             else:
                 R.ok(rec.fq, "%s: split and reconstruct are inverse (%s -> %s)" % (label, params, res))
-        except Unsupported as e:
+        except (Unsupported, TypeError, AttributeError, KeyError, IndexError, ValueError) as e:
             R.undecided(rec, rec.node, "cannot interpret TensorNonTensorSeparator abstractly (%s)" % e)
             return n
         except Raised as e:
